@@ -311,6 +311,15 @@ def run_ecdsa(ctx, spec):
     if not ctx.want('h%d' % h):
       continue
     sg, descs = workloads.ecdsa_hostile_batch(rng, rng.choice([2, 4, 7]))
+    if h % 2 == 1:
+      # an issuer key that fails several EC checks of different severity: a
+      # structured private key (critical) on a weak curve (medium)
+      from vp import sigs as vsigs
+      cw = 'CURVE_SECP192R1'
+      dw, pubw = vsigs.issuer(rng, cw, (rng.bits(32) | 1) << 16)
+      sg += vsigs.sign_many(rng, cw, dw, pubw, vsigs.nonces_uniform(
+          rng, gen.model_curve(cw).n, 1))
+      descs.append('%s:weak-key-on-weak-curve' % cw)
     _history(ctx, 'ecdsa', sg, rng, h)
     _issuer_verdicts(ctx, sg, descs)
     # a later call on fresh protobufs: an issuer seen before (then healthy)
@@ -360,7 +369,11 @@ def _issuer_verdicts(ctx, sg, descs):
     kid = (s.issuer_key_info.curve_type, bytes(s.issuer_key_info.x).lstrip(
         b'\x00'), bytes(s.issuer_key_info.y).lstrip(b'\x00'))
     key = keys[kid]
-    hs = util.GetHighestSeverity(key.test_info)
+    # (the maximum is taken here, not through the library's helper)
+    failed = [int(e.severity) for e in key.test_info.test_results if e.result]
+    hs = max(failed) if failed else None
+    if len(set(failed)) > 1:
+      ctx.count('issuer_keys_failing_checks_of_different_severity')
     if ent is None:
       ctx.violation('issuer-key-entry-missing', '', {'descs': descs})
       continue
@@ -398,5 +411,6 @@ def finalize(agg, tier):
   need = ['histories', 'preannotated_histories', 'entry_point_calls',
           'issuer_verdicts_compared', 'issuer_verdicts_weak',
           'single_check_calls_with_new_positive',
-          'later_call_with_close_issuer', 'lonely_weak_batches']
+          'later_call_with_close_issuer', 'lonely_weak_batches',
+          'issuer_keys_failing_checks_of_different_severity']
   return [], ['reach counter %s is zero' % k for k in need if not c.get(k)]
